@@ -167,7 +167,7 @@ def run_translators():
     import importlib
     errors = []
     for name in ('py2coq_consts', 'py2coq_errmap', 'py2coq_guards',
-                 'py2coq_mgmt', 'py2coq_src'):
+                 'py2coq_mgmt', 'py2coq_src', 'py2coq_dispatch'):
         try:
             mod = importlib.import_module(name)
         except ImportError:
